@@ -81,8 +81,8 @@ def gen_programs(ctx, n, big=False, layouts=('canonical', 'random', 'multi', 'ma
     r = ctx.rnd
     out = []
     for _ in range(n):
-        g = sources.Gen(r, big=big, looponly=looponly)
         lay = r.choice(layouts)
+        g = sources.Gen(r, big=big, looponly=looponly or (lay == 'repeat' and r.random() < 0.7))
         defs, main = sources.reentry_program(r) if lay == 'reentry' else (sources.backjump_program(r) if lay == 'backjump' else (sources.redef_marks_program(r) if lay == 'redefmarks' else g.program()))
         L = None
         if lay == 'canonical_multi':
@@ -97,7 +97,9 @@ def gen_programs(ctx, n, big=False, layouts=('canonical', 'random', 'multi', 'ma
             # the same file included several times (directly or over two include paths): INCLUDE is textual, every copy counts
             import copy
             gb = sources.Gen(r, looponly=True)
-            raw = [st for st in gb.stmts([], [], 1, r.randint(1, 3)) if st[0] != 'stop'] or [['assign', 'x0', ('inc', 'x0', 2)]]
+            raw = [st for st in gb.stmts([], [], 1, r.randint(0, 2)) if st[0] != 'stop']
+            # every copy leaves a trace: an accumulator that nothing else touches
+            raw.insert(r.randrange(len(raw) + 1), ['assign', 'rr', ('inc', 'rr', r.randint(1, 3))])
             k = r.randint(2, 3)
             copies = []
             for _ in range(k):
